@@ -523,7 +523,7 @@ func gen(t *rapid.T) Case {
 
 func TestTransitions(t *testing.T) {
 	defer simworld.Discard()
-	vh.Check(t, prop, gen, run)
+	vh.Check(t, prop, gen, vh.Confirmed(run))
 }
 
 func ok(n int) []string {
@@ -537,20 +537,20 @@ func ok(n int) []string {
 func TestFixed(t *testing.T) {
 	defer simworld.Discard()
 	// single active task, non-critical, CONFIGURE answered with an error (DESIGN section 9 observation a)
-	vh.Fixed(t, prop, "single-noncritical-configure-error", Case{Tasks: []TaskSpec{{0, false, "direct", "ok", "err-src"}}}, run)
-	vh.Fixed(t, prop, "single-noncritical-start-error", Case{Tasks: []TaskSpec{{0, false, "direct", "ok", "ok"}}, Steps: []Step{{"START_ACTIVITY", []string{"err-src"}}}}, run)
+	vh.Fixed(t, prop, "single-noncritical-configure-error", Case{Tasks: []TaskSpec{{0, false, "direct", "ok", "err-src"}}}, vh.Confirmed(run))
+	vh.Fixed(t, prop, "single-noncritical-start-error", Case{Tasks: []TaskSpec{{0, false, "direct", "ok", "ok"}}, Steps: []Step{{"START_ACTIVITY", []string{"err-src"}}}}, vh.Confirmed(run))
 	vh.Fixed(t, prop, "critical-and-noncritical-both-fail-start", Case{Tasks: []TaskSpec{{0, true, "direct", "ok", "ok"}, {1, false, "basic", "ok", "ok"}},
-		Steps: []Step{{"START_ACTIVITY", []string{"err-src", "err-src"}}}}, run)
+		Steps: []Step{{"START_ACTIVITY", []string{"err-src", "err-src"}}}}, vh.Confirmed(run))
 	vh.Fixed(t, prop, "noncritical-fails-everywhere", Case{Tasks: []TaskSpec{{0, true, "direct", "ok", "ok"}, {1, false, "basic", "ok", "err-error"}, {2, true, "fairmq", "ok", "ok"}},
-		Steps: []Step{{"START_ACTIVITY", []string{"ok", "err-src", "ok"}}, {"STOP_ACTIVITY", []string{"ok", "err-error", "ok"}}, {"RESET", []string{"ok", "err-error", "ok"}}, {"CONFIGURE", []string{"ok", "err-src", "ok"}}}}, run)
+		Steps: []Step{{"START_ACTIVITY", []string{"ok", "err-src", "ok"}}, {"STOP_ACTIVITY", []string{"ok", "err-error", "ok"}}, {"RESET", []string{"ok", "err-error", "ok"}}, {"CONFIGURE", []string{"ok", "err-src", "ok"}}}}, vh.Confirmed(run))
 	vh.Fixed(t, prop, "critical-error-stop", Case{Tasks: []TaskSpec{{0, true, "direct", "ok", "ok"}, {1, true, "direct", "ok", "ok"}},
-		Steps: []Step{{"START_ACTIVITY", ok(2)}, {"STOP_ACTIVITY", []string{"ok", "err-error"}}}}, run)
-	vh.Fixed(t, prop, "nothing-to-command-walk", Case{CallOnly: true, Tasks: nil, Steps: []Step{{"START_ACTIVITY", []string{"ok"}}, {"STOP_ACTIVITY", []string{"ok"}}, {"RESET", []string{"ok"}}, {"CONFIGURE", []string{"ok"}}}}, run)
+		Steps: []Step{{"START_ACTIVITY", ok(2)}, {"STOP_ACTIVITY", []string{"ok", "err-error"}}}}, vh.Confirmed(run))
+	vh.Fixed(t, prop, "nothing-to-command-walk", Case{CallOnly: true, Tasks: nil, Steps: []Step{{"START_ACTIVITY", []string{"ok"}}, {"STOP_ACTIVITY", []string{"ok"}}, {"RESET", []string{"ok"}}, {"CONFIGURE", []string{"ok"}}}}, vh.Confirmed(run))
 	if !vh.Open("KF-C02-noncritical-undeployable") {
-		vh.Fixed(t, prop, "noncritical-unplaceable", canaryNC(), run)
+		vh.Fixed(t, prop, "noncritical-unplaceable", canaryNC(), vh.Confirmed(run))
 	}
 	if !vh.Open("KF-C02-zero-tasks-configure-hangs") {
-		vh.Fixed(t, prop, "nothing-to-command", Case{CallOnly: true}, run)
+		vh.Fixed(t, prop, "nothing-to-command", Case{CallOnly: true}, vh.Confirmed(run))
 	}
 }
 
@@ -565,5 +565,5 @@ func TestCanaryNoncriticalUndeployable(t *testing.T) {
 
 func TestCanaryZeroTasks(t *testing.T) {
 	defer simworld.Discard()
-	vh.Canary(t, prop, "KF-C02-zero-tasks-configure-hangs", Case{CallOnly: true}, run)
+	vh.Canary(t, prop, "KF-C02-zero-tasks-configure-hangs", Case{CallOnly: true}, vh.Confirmed(run))
 }
